@@ -289,6 +289,12 @@ impl Prop for C10 {
         }
         Ok(())
     }
+    fn post(&self, tier: Tier, seed: u64) -> (serde_json::Value, Option<(Case, Failure)>) {
+        if tier != Tier::Thorough {
+            return (json!({"fuzz": "not part of the quick tier"}), None);
+        }
+        crate::fuzzrun::campaign("c10_formulas", seed, 600_000, 96, crate::decode::c10_case, fuzz_check)
+    }
     fn rule(&self) -> String {
         "generated (site |lat|<=60 with extra mass in 46-60, GMT within 1 h of lon/15, 8 named methods, the 10 policies named in the statement, substitute latitude in [-60,60] of either sign, Fajr/Isha intervals in [1,120] for the minutes-from-maghrib policies, date mixture). Expected values are built from the conventional run (and a conventional run at the substitute latitude) with the formulas of the statement. A tenth of the nearest-latitude cases use a substitute latitude equal to or within 1e-6..0.05 deg of the site's own; every case is preceded by a priming call with a sibling input. Non-trivial = the policy actually applied (an 'always' variant, or an 'invalid'/angle-based one on a day with a missing time); distinct by hash of the case".into()
     }
@@ -322,3 +328,8 @@ const POLICY_CLASS: [&str; 15] = [
     "applied_MinutesFromMaghribFajrIshaAlways",
     "applied_MinutesFromMaghribFajrIshaInvalid",
 ];
+
+/// entry point of the libFuzzer target `c10_formulas` (and of the re-check of its artifacts)
+pub fn fuzz_check(c: &Case, st: &mut Stats) -> Result<(), Failure> {
+    C10.check(c, st)
+}
